@@ -38,6 +38,8 @@ package transports
 //@ ghost func validRegs(rm RegManager, phantom net.IP) map[string]Registration
 //@ func (rm RegManager) GetRegistrations(phantomAddr net.IP) map[string]Registration
 //@   ensures result == validRegs(rm, phantomAddr)
+// (no nil registration is ever returned: the implementation boxes tracked, Valid registrations - proved in pkg/station/lib)
+//@   ensures forall k string :: k in result ==> result[k] != nil
 //@   assigns nothing
 //@ func PrependToConn(c net.Conn, r io.Reader) PrefixConn
 //@   assigns nothing
